@@ -6,6 +6,10 @@ CONSTANTS
   SeqNo = {"0", "1", "2"}
   Tags = {"t1", "t2"}
   Fails = {"m", "v"}
+  Codes = {0, 1}
+  CodeOverride = FALSE
+  SameFs = FALSE
+  TempRename = FALSE
   Memo = "keyed"
 INVARIANTS LTypeOK CurrentSeqFileIsThisPollsReport NoStaleHandlerText ReportedIsComputed TypeOK ErrorOnlyAfterSustainedFailure NeverErrorAfterSuccess TwoSuccessesGiveSuccess NoWedge
 CHECK_DEADLOCK TRUE
